@@ -46,6 +46,16 @@ def worker(args):
         # uncompressed tables of a large rule set: offsets beyond 32767 -> 32-bit elements
         from . import c01
         case = c01.large_case(g, rng, case["seed"])
+    if i % 11 == 2:
+        # table entries exactly at an element-width boundary: with N user rules plus the
+        # default rule the largest yy_accept entry (YY_END_OF_BUFFER) is N + 2; 126 rules
+        # give exactly 128, the first value that does not fit a signed 8-bit element
+        nkw = [126, 125, 127][(i // 11) % 3]
+        case["rules"] = [{"scs": None, "bol": False, "pat": ("str", ("k%03d" % k).encode()),
+                          "trail": None, "act": []} for k in range(nkw)]
+        case["defs"] = []
+        g.alpha = b"k0123456789 \n"
+        feat("width_boundary_rules:%d" % nkw)
     mode = i % 3
     f = {"ret": 25}
     if mode == 1:
@@ -245,6 +255,10 @@ def worker(args):
                 prob("truncated:" + ro6.kind, "file cut at byte %d of %d: %s" % (cpos, n, ro6.detail[:1500]),
                      B, ro6, cB0, {"cut": cpos})
                 break
+            if "A badfree" in ro6.log:
+                prob("truncated:badfree", "file cut at byte %d of %d: the loader handed yyfree() a pointer "
+                     "that is not a live block (double free)" % (cpos, n), B, ro6, cB0, {"cut": cpos})
+                break
             if "X tables 1" not in ro6.log and "\nF " not in ro6.log:
                 prob("truncated-accepted", "file cut at byte %d of %d loaded 'successfully': %s" % (
                     cpos, n, ro6.log[:200]), B, ro6, cB0, {"cut": cpos})
@@ -285,6 +299,12 @@ def worker(args):
                 else:
                     # the property promises a clean failure for truncated files and a wrong
                     # magic number only; other corruptions are recorded, not judged
+                    feat("unpromised_corruption_crash:" + nm)
+            elif "A badfree" in ro7.log:
+                if promised:
+                    prob("corrupt:badfree", "corruption %s: yyfree() of a pointer that is not a live block" % nm,
+                         B, ro7, cB0, {"corruption": nm})
+                else:
                     feat("unpromised_corruption_crash:" + nm)
             elif promised and "X tables 1" not in ro7.log and "\nF " not in ro7.log:
                 prob("corrupt-accepted", "corruption %s: load reported success" % nm, B, ro7, cB0)
